@@ -73,3 +73,8 @@ Lemma byte_sweep (P : N -> bool) :
 Proof.
   intros H b Hb. eapply forallb_forall in H; [exact H|]. apply all_bytes_complete; assumption.
 Qed.
+
+(* linear-time reversal for the executable model ([rev] is quadratic once extracted) *)
+Definition frev {A} (l : list A) : list A := rev_append l [].
+Lemma frev_eq {A} (l : list A) : frev l = rev l.
+Proof. unfold frev. rewrite rev_append_rev, app_nil_r. reflexivity. Qed.
